@@ -177,6 +177,22 @@ def run_C16(tier, seed):
     return res
 
 
+def run_C18(tier, seed):
+    once = lambda atomic: f"CONSTANTS Threads = {{t1, t2, t3}} Atomic = {atomic}\nSPECIFICATION Spec\nINVARIANTS SingleInit SeesFull NoStuck\nPROPERTY Terminates\nCHECK_DEADLOCK FALSE\n"
+    res = [stages.simple_mc_stage("C18", "MC_Once", once("TRUE"), [("check_then_act_initialisation", once("FALSE"), "SingleInit")])]
+    res.append(stages.threads_stage("C18", tier, seed))
+    return res
+
+
+def run_C20(tier, seed):
+    mem = lambda plain: f"CONSTANTS Plain = {'TRUE' if plain else 'FALSE'}\nSPECIFICATION Spec\nINVARIANT NoLeak\nCHECK_DEADLOCK FALSE\n"
+    res = [stages.simple_mc_stage("C20", "MC_Memory", mem(False), [("unwiped_temporary_copy", mem(True), "NoLeak")])]
+    # the dev profile shows what the source says (copies the optimiser may elide), the release profile what ships
+    res.append(stages.memory_stage("C20", tier, seed, "dev"))
+    res.append(stages.memory_stage("C20", tier, seed, "release"))
+    return res
+
+
 def run_C17(tier, seed):
     return [stages.cases_stage("C17", "MC_Constructors", tier, seed, invariants="Documented")]
 
@@ -217,6 +233,8 @@ CHECKS = {
     "C15": {"run": run_C15, "level": "model_checking"},
     "C16": {"run": run_C16, "level": "model_checking"},
     "C17": {"run": run_C17, "level": "model_checking"},
+    "C18": {"run": run_C18, "level": "model_checking"},
+    "C20": {"run": run_C20, "level": "model_checking"},
     "C14": {"run": run_C14, "level": "model_checking"},
     "C06": {"run": run_C06, "level": "model_checking"},
     "C07": {"run": run_C07, "level": "model_checking"},
@@ -235,6 +253,10 @@ def replay(rep):
         return stages.replay_case(rep)
     if rep["kind"] == "gens":
         return stages.replay_gens(rep)
+    if rep["kind"] == "mem":
+        return stages.replay_mem(rep)
+    if rep["kind"] == "threads":
+        return stages.replay_threads(rep)
     raise vlib.ToolError("unknown replay kind " + rep["kind"])
 
 
